@@ -206,11 +206,15 @@ CHECKS = {
              "request is inside its transmission and at most one awaits an ACK, in every state the event loop can be in "
              "under every order of task micro-steps (C11_any_schedule); no task step writes a data frame while an ACK "
              "wait is pending and an event that is not the matching ACK, the sender's cancellation or the expiry of its "
-             "ACK deadline writes nothing (C11_each_after_ack_or_expiry). Tied by comparing real request tasks (1..4 "
+             "ACK deadline writes nothing (C11_each_after_ack_or_expiry); at the wire, the fragments of a message stamped "
+             "with any sequence numbers, with acknowledgement frames interleaved anywhere and cut into reads in any way, "
+             "are handed up exactly by a protocol-following NCP and reassemble to the request's header and parameter bytes "
+             "(C11_ncp_sees_request, C11_ncp_sees_small_request). Tied by comparing real request tasks (1..4 "
              "fragments, blocking or not, cancellation, expiry, close, loss) with the model per quiescent step, plus a "
              "reference-NCP monitor (well-formed writes, contiguous fragments, reassembled bytes == request).",
-        note=Q + "; byte-level well-formedness of each write is C05/C09; 'the NCP receives exactly the request bytes' is "
-             "C11_trace + C09_partition + C10_wire_loopback + the reference-NCP monitor, not one theorem",
+        note=Q + "; byte-level well-formedness of each write is C05/C09; the request machine (C11_trace) is abstract in the "
+             "frame contents, the wire theorem (C11_ncp_sees_request) is about the bytes of one message: the two meet at "
+             "'no data frame of another message in between'",
         design="7/C11, 12.1"),
     "C13": dict(
         technique="Lean 4 proof: no-residue invariant (every registered listener belongs to a running request) preserved "
@@ -249,9 +253,9 @@ CHECKS = {
              "request about to transmit ends with RuntimeError (C20_next_step_ends). Queue integrity and no lost wake-up "
              "are proved for every reachable state; hence at a quiescent point a running request waits for a pending ACK "
              "or response wait (C20_no_stranding), and after close, once the pending ACK wait's timer has fired and the loop "
-             "has come to rest, every request has ended (C20_close_bounded). Not a theorem: the loss clause 'terminates by "
-             "its timeout' as an induction over successive timer expiries - checked on the real code under the virtual "
-             "clock (late-end monitor) and by the differential.",
+             "has come to rest, every request has ended (C20_close_bounded); a response wait ends at the timer event that "
+             "reaches its deadline, link open, lost or closed (C20_response_wait_ends_at_deadline). Not a single theorem: "
+             "the loss clause as an induction over successive timer events (each step is proved).",
         note=Q + "; termination by the response timeout after a loss: drain theorem + correspondence + monitor (partial)",
         design="7/C20, 12.1"),
 }
